@@ -38,7 +38,7 @@ MANIFEST = {
             "subject of C17/C13/C04 for the stateful rules).",
     "note": "Trusted: Coq kernel + vm_compute; translator tools/translate_registration.py; the kind table of C01Model.v (tested "
             "in vivo on every run: per registered stage, uids in vs uids reaching the next stage); the scenario generator "
-            "and its ground truth. Selected stages are computed by aligned profile flags, justified by C16's theorem. "
+            "and its ground truth. The stage list of the instance equals the list forward name matching registers (C01_stage_list_is_registered, from C16's lemmas). "
             "--comm_summarize_seq merges (C20) and the experimental -S/-s/-R/-O async|shift/--flex_ts_fix paths are "
             "outside the scenarios. Print Assumptions: closed under the global context.",
     "technique": "Coq proof (accounting invariant by induction over the operational pipeline model; instance over the "
@@ -48,7 +48,8 @@ MANIFEST = {
 }
 PROP_FILE = "props/C01.v"
 MODEL_TARGETS = ["theories/C01Model.vo"]
-THEOREMS = ["C01_mechanics", "C01_nothing_withheld", "C01_program", "C01_drops_documented"]
+THEOREMS = ["C01_mechanics", "C01_nothing_withheld", "C01_program", "C01_drops_documented",
+            "C01_stage_list_is_registered"]
 ALLOWED_AXIOMS = []
 TRUSTED = [
     "abstract stage kinds of C01Model.v (validated in vivo by the per-stage uid account, not proved from the stage sources)",
